@@ -534,10 +534,46 @@ fn run_c15(ctx: &mut Ctx) {
     }
 }
 
+/// Seeded random strings: random digits, 0-2 characters replaced by arbitrary Unicode scalar values.
+fn c15_random(ctx: &mut Ctx) {
+    let tier = ctx.tier;
+    let per = tier.pick(100, 2_000_000, 20_000_000) / ctx.nworkers + 1;
+    let mut rng = Rng::derive(ctx.seed, 0x1516, ctx.worker as u64);
+    const HEXD: [char; 22] = ['0', '1', '2', '3', '4', '5', '6', '7', '8', '9', 'a', 'b', 'c', 'd', 'e', 'f', 'A', 'B', 'C', 'D', 'E', 'F'];
+    for _ in 0..per {
+        let ty = rng.below(NTYPES);
+        let hex = rng.bool();
+        let capd = TYPE_FIXED_CAP[ty].map_or(if rng.chance(1, 20) { 1200 } else { 200 }, |c| if hex { c / 4 + 2 } else { c + 3 });
+        let nd = if rng.chance(1, 3) { capd.saturating_sub(rng.below(4)) } else { rng.below(capd + 1) };
+        let mut chars: Vec<char> = (0..nd).map(|_| if hex { *rng.pick(&HEXD) } else if rng.bool() { '1' } else { '0' }).collect();
+        let nbad = [0usize, 0, 1, 1, 2][rng.below(5)];
+        for _ in 0..nbad {
+            if nd == 0 {
+                break;
+            }
+            let pos = rng.below(nd);
+            let c = match rng.below(4) {
+                0 => (rng.below(128) as u8) as char,
+                1 => char::from_u32(0x80 + rng.below(0x700) as u32).unwrap_or('\u{e9}'),
+                2 => char::from_u32(0x800 + rng.below(0xD000) as u32).unwrap_or('\u{20ac}'),
+                _ => char::from_u32(0x10000 + rng.below(0x10000) as u32).unwrap_or('\u{1F600}'),
+            };
+            if c == ' ' {
+                // the case encoding is space separated but the string travels hex-encoded, so a space is fine
+            }
+            chars[pos] = c;
+        }
+        emit_parse(ctx, ty, &chars.iter().collect::<String>(), hex, "W3-seeded-random-strings");
+    }
+}
+
 pub fn run(ctx: &mut Ctx) {
     match ctx.prop.as_str() {
         "C14" => run_c14(ctx),
-        "C15" => run_c15(ctx),
+        "C15" => {
+            run_c15(ctx);
+            c15_random(ctx);
+        }
         p => panic!("HARNESS-ERROR: text cannot run {}", p),
     }
 }
